@@ -27,6 +27,10 @@ BOOL = ("union", "cut", "isect")
 IN, OUT, UNDECIDED = 1, 0, -1
 
 
+class EmptyReference(Exception):
+    """the generated expression denotes (numerically) no set at the given parameter row"""
+
+
 # ---------------------------------------------------------------- parameters -----------
 def _f32(v):
     """constants reach the library as float32: the reference uses the same rounded numbers."""
@@ -578,7 +582,11 @@ def sample_interior(E, penv, n, rng):
     lo, hi = box[0::2], box[1::2]
     out = []
     got = 0
+    rounds = 0
     while got < n:
+        rounds += 1
+        if rounds > 300:
+            raise EmptyReference("reference rejection sampler found no point of the set in its box")
         m = max(256, 2 * (n - got))
         x = lo[None, :] + rng.random((m, d)) * (hi - lo)[None, :]
         env = {k: np.repeat(np.asarray(v, float), m, axis=0) for k, v in penv.items()}
